@@ -241,6 +241,31 @@ static void dependent_scenario(int nworkers, int first_kind) {
     }
 }
 
+// the destructor invoked from one of the pool's own threads: a job deletes the pool it runs in. Other workers are joined
+// by that destructor, the deleting worker detaches itself and must not touch the pool object after the job returned.
+static void selfdestroy_scenario(int nworkers, bool other_job) {
+    int64_t *s = vrt_scratch();
+    {
+        auto *pool = new cocls::thread_pool((unsigned)nworkers);
+        if (other_job) pool->run_detached([g = ClosureGuard(1)] { mark_ran(1); });
+        pool->run_detached([pool, g = ClosureGuard(0)] {
+            mark_ran(0);
+            vrt_label("job-deletes-pool");
+            delete pool;
+            vrt_scratch()[S_STOPRET]++;
+        });
+        vrt_label("main-wait-selfdestroy");
+        while (!s[S_STOPRET]) vrt_yield();
+        for (int i = 0; i < 2; i++) {
+            vrt_label("main-wait-closures");
+            while (s[S_CLOS + i] > 0) vrt_yield();
+        }
+        vrt_label("main");
+        VRT_CHECK(s[S_RAN] == 1, "pool/ran-count", "the deleting job ran %ld times", (long)s[S_RAN]);
+        vrt_outcome("other=%ld", (long)s[S_RAN + 1]);
+    }
+}
+
 // resume()-based submissions on a pool that stays alive until everything ran (no stop involved, so none of this is
 // the known finding): a suspend point with two handles, and co_await pool(future) whose future is resolved by
 // another thread while the coroutine is still suspending
@@ -294,6 +319,7 @@ static void coawait_fut_concurrent(int nworkers) {
 
 VRT_REGISTER(reg_pool) {
     for (int w = 1; w <= 2; w++) {
+        for (int o = 0; o < 2; o++) vrt::add("pool_w" + std::to_string(w) + "_selfdestroy" + (o ? "_otherjob" : ""), [=] { selfdestroy_scenario(w, o != 0); });
         vrt::add("pool_w" + std::to_string(w) + "_live_resume2", [=] { resume_two_handles(w); });
         vrt::add("pool_w" + std::to_string(w) + "_live_coawaitfut-concurrent", [=] { coawait_fut_concurrent(w); });
     }
